@@ -62,6 +62,9 @@ func (o *Oracle) judgePages(e *Exchange) {
 		return
 	}
 	if strings.HasPrefix(e.RespHdr.Get("Content-Type"), "application/json") {
+		if e.Method == "HEAD" && len(e.RespBody) == 0 {
+			return // a HEAD answer carries the headers of the body it does not send
+		}
 		o.res.cover(fmt.Sprintf("C20.A2|%s|%d", e.Link, e.Status))
 		dec := json.NewDecoder(bytes.NewReader(e.RespBody))
 		var v interface{}
